@@ -20,7 +20,7 @@ RULE = ('starting from valid strings (C04 grammar ASTs incl. multiplied nodes/br
         'for a key that is reserved-numeric at that level - in base-graph nodes, coarse-fragment nodes and atomistic bracket '
         'atoms; (d-f) also inside a SECOND definition of an already defined name appended to its block, and (a) also on nodes of '
         'coarse fragments. Expected: SyntaxError for a-e, TypeError for f, raised by read_cgsmiles / from_string / resolve; anything '
-        'else (a returned graph, another exception type) is a violation. evaluations = faulted strings executed; distinct = '
+        'else (a returned graph, another exception type) is a violation. In hierarchies (3+ blocks) fault (c) also renames a node to a name that only ANOTHER block defines. evaluations = faulted strings executed; distinct = '
         '(fault class, level, position class, feature set of the base string).')
 ASSUMPTIONS = ['ring faults inside ATOMISTIC fragment SMILES are parsed by pysmiles (non-strict), not by the anchored mechanisms: not generated',
                'a node without any edge of order >= 1 counts as virtual (documented) and is not a fault (c) target']
@@ -34,7 +34,7 @@ BAD = {
     'frag': {'d': ['w=a=b', 'x=R=S', 'k=v=w', '1;x=R=R'], 'e': ['1;R;2', '0.5;S;1;2', '1;R;S;k=v', 'k=v;0.5;R;8', 'x=R;0.5;7;8', '1;k=v;S;R'],
              'f': ['w=abc', 'abc', 'w=1.5.2', 'w=', 'abc;R', 'x=R;w=heavy']},
 }
-EXPECT = {'a': 'SyntaxError', 'b': 'SyntaxError', 'c': 'SyntaxError', 'd': 'SyntaxError', 'e': 'SyntaxError', 'f': 'TypeError'}
+EXPECT = {'c_fresh': 'SyntaxError', 'c_other_level': 'SyntaxError', 'a': 'SyntaxError', 'b': 'SyntaxError', 'c': 'SyntaxError', 'd': 'SyntaxError', 'e': 'SyntaxError', 'f': 'TypeError'}
 
 
 def position_class(i, n, depth, in_unit):
@@ -211,6 +211,22 @@ def cases(seed, tier, shard, nshards):
                 if '%97' not in rest and not after.isdigit() and after != '|':
                     vs.append(dict(fault='a', pos='coarse_fragment_node', level='coarse_fragment', api='resolve_coarse',
                                    string=head + '}.' + rest[:at + 1] + '%97' + rest[at + 1:]))
+            # (c) in hierarchies: a node renamed to a name that is defined, but only in ANOTHER block (every block is a name
+            # space of its own); judged only if the same node renamed to a name defined nowhere is rejected (premise: the
+            # node has an edge of order >= 1)
+            blocks = re.findall(r'\{[^\}]+\}', s)
+            if len(blocks) >= 3:
+                defined = [set(re.findall(r'(?:(?<=\{)|(?<=,))#(\w+)=', b)) for b in blocks]
+                for lvl in range(len(blocks) - 1):
+                    others = sorted(set().union(*[defined[k] for k in range(1, len(blocks)) if k != lvl + 1]) - defined[lvl + 1])
+                    spots_ = [m for m in re.finditer(r'\[#(\w+)(?=[;\]])', blocks[lvl])]
+                    if not others or not spots_:
+                        continue
+                    m = rng.choice(spots_)
+                    start = sum(len(b) + 1 for b in blocks[:lvl])
+                    for tag_, newname in (('c_fresh', 'ZZ9'), ('c_other_level', rng.choice(others))):
+                        txt_ = s[:start + m.start(1)] + newname + s[start + m.end(1):]
+                        vs.append(dict(fault=tag_, pos='level_%d' % lvl, level='hierarchy', api='resolve_coarse' if c.get('coarse_last', True) else 'resolve', string=txt_))
             made += 1
             yield dict(kind='coarse', valid=s, variants=vs, features=sorted(c['features']))
 
@@ -240,8 +256,22 @@ def run(case):
         contracts.clear()
         return {'violations': [V('c20.valid_string_rejected', f'unfaulted {case["valid"]!r} raised {type(err).__name__}: {err}')],
                 'evaluations': 1, 'cls': ('valid_rejected',)}
+    premise = {}
     for v in case['variants']:
         want = EXPECT[v['fault']]
+        if v['fault'] == 'c_fresh':
+            # only the premise for the next variant: is this node one that needs a fragment at all?
+            try:
+                execute(v['api'], v['string'])
+                premise[v['pos']] = False
+            except SyntaxError:
+                premise[v['pos']] = True
+            except Exception:
+                premise[v['pos']] = False
+            continue
+        if v['fault'] == 'c_other_level' and not premise.get(v['pos']):
+            rejected['premise_not_met_node_is_virtual'] = rejected.get('premise_not_met_node_is_virtual', 0) + 1
+            continue
         cls = (v['fault'], v['level'], v['pos'])
         classes.add(cls + (tuple(case['features']),))
         try:
